@@ -1202,3 +1202,8 @@ M("C05-public-virtual-base-recorded-nonvirtual", "C05", "src/cppparser/cppBison.
 M("C05-virtual-base-without-access-rejected", "C05", "src/cppparser/cppBison.yxx",
   "        | KW_VIRTUAL class_derivation_name\n{\n  current_struct->append_derivation($2, V_unknown, true);\n}\n", "",
   expect="R05.8|base_specification|covers|virtual+V_unknown")
+
+M("C02-property-setter-accepts-const-this", "C02", "src/interrogate/interfaceMakerPythonNative.cxx",
+  "        out << \"  if (!Dtool_Call_ExtractThisPointer_NonConst(self, Dtool_\" << ClassName << \", (void **)&local_this, \\\"\"\n            << classNameFromCppName(cClassName, false) << \".\" << ielem.get_name() << \"\\\")) {\\n\";\n        out << \"    return -1;\\n\";\n        out << \"  }\\n\\n\";\n      }\n\n      out << \"  if (arg == nullptr) {\\n\";",
+  "        out << \"  if (!Dtool_Call_ExtractThisPointer(self, Dtool_\" << ClassName << \", (void **)&local_this)) {\\n\";\n        out << \"    return -1;\\n\";\n        out << \"  }\\n\\n\";\n      }\n\n      out << \"  if (arg == nullptr) {\\n\";",
+  expect="R02.7|write_getset")
